@@ -134,14 +134,19 @@ Inductive action := ASign | ACertify | ARevoke | ARevoker | ABind | ADecrypt | A
 Inductive attr := IsUnlocked | IsPublic.
 Inductive outcome := Run | ErrNoKey | ErrIncomplete | ErrUsage | ErrAttr (a : attr).
 
-(* what the decorator looks at *)
+(* what the decorator looks at.  haskey / nuids / primary belong to the key the method was called on; since repair
+   cab6d36 the attributes is_public / protected / unlocked are read from the component usage() SELECTS for the work
+   (`self.check_attributes(_key)`): the key itself when it carries one of the required flags or the action names none,
+   else the first subkey that does.  Every component of a public key is public (PGPKey.__or__ refuses a subkey whose
+   is_public differs from the parent's; checked by the harness on every public object): for an object that holds only
+   public material ks_public is true whichever component is selected. *)
 Record kstate := {
   ks_haskey : bool;          (* key._key is not None *)
   ks_nuids : nat;            (* len(key._uids) *)
   ks_primary : bool;
-  ks_public : bool;          (* is_public *)
-  ks_protected : bool;       (* _key.protected *)
-  ks_cleartext : bool;       (* _key.unlocked: no secret integer is zero *)
+  ks_public : bool;          (* is_public of the selected component *)
+  ks_protected : bool;       (* its _key.protected *)
+  ks_cleartext : bool;       (* its _key.unlocked: no secret integer is zero *)
   ks_flag_ok : bool;         (* the key or one of its subkeys carries one of the required usage flags *)
   ks_require_flags : bool    (* key._require_usage_flags *)
 }.
